@@ -87,7 +87,7 @@ func lzCases(seed, label uint64, count int, lclp4 bool) []lzCase {
 		if k.Matcher == 1 {
 			lim := 200000
 			switch k.Family {
-			case "zeros", "run", "zeroprefix", "periodic", "lowent", "altseg", "nearrep", "maxrun", "randzeros":
+			case "zeros", "run", "zeroprefix", "periodic", "lowent", "altseg", "nearrep", "maxrun", "randzeros", "shortruns", "ascwords", "descwords":
 				lim = 12000
 			}
 			if k.N > lim {
